@@ -9,6 +9,8 @@ import (
 	"time"
 	"sort"
 
+	"github.com/gorilla/websocket"
+
 	"github.com/dfklegend/cell2/pomelonet/common/conn/codec"
 	"github.com/dfklegend/cell2/pomelonet/common/conn/message"
 	"github.com/dfklegend/cell2/pomelonet/common/conn/packet"
@@ -169,6 +171,8 @@ func ExecOp(o hx.T) any {
 		return hx.C("RDict", true, out)
 	case "OFramed":
 		return framed(o.List(0))
+	case "OWsFramed":
+		return wsFramed(o.List(0))
 	case "OSweep":
 		return hx.C("RSweep", sweep(int(o.Int(0))))
 	}
@@ -232,6 +236,73 @@ func framed(chunks []any) any {
 					end = "FFuel" // timeout or an error the model does not know
 				}
 				return hx.C("RFrames", ms, end)
+			}
+			ms = append(ms, hx.Norm(ints(b)))
+		}
+	})
+}
+
+var (
+	wsOnce sync.Once
+	wsAcc  *acceptor.WSAcceptor
+)
+
+// wsFramed: a real websocket connection upgraded by the real WSAcceptor; the peer sends the
+// messages one by one (a small write buffer, so that larger ones travel as several
+// continuation frames; every third one as a text message), then closes; the server side
+// calls WSConn.GetNextMessage until it fails.
+func wsFramed(msgs []any) any {
+	wsOnce.Do(func() {
+		wsAcc = acceptor.NewWSAcceptor("127.0.0.1:0")
+		go wsAcc.ListenAndServe()
+		for i := 0; i < 2000 && wsAcc.GetAddr() == ""; i++ {
+			time.Sleep(time.Millisecond)
+		}
+	})
+	d := websocket.Dialer{WriteBufferSize: 64, HandshakeTimeout: 3 * time.Second}
+	c, _, err := d.Dial("ws://"+wsAcc.GetAddr()+"/", nil)
+	if err != nil {
+		panic("c06: ws dial: " + err.Error())
+	}
+	pc := <-wsAcc.GetConnChan()
+	go func() {
+		for i, m := range msgs {
+			typ := websocket.BinaryMessage
+			if i%3 == 2 {
+				typ = websocket.TextMessage
+			}
+			c.WriteMessage(typ, exact(hx.Ints(m)))
+		}
+		c.WriteControl(websocket.CloseMessage, websocket.FormatCloseMessage(websocket.CloseNormalClosure, ""), time.Now().Add(time.Second))
+		time.Sleep(2 * time.Millisecond)
+		c.Close()
+	}()
+	return guard(func() any {
+		ms := []any{}
+		for {
+			pc.SetReadDeadline(time.Now().Add(3 * time.Second))
+			b, err := pc.GetNextMessage()
+			if err != nil {
+				pc.Close()
+				var ne net.Error
+				var end any
+				switch {
+				case errors.Is(err, constants.ErrReceivedMsgSmallerThanExpected):
+					end = hx.C("Some", "WShort")
+				case errors.Is(err, constants.ErrReceivedMsgBiggerThanExpected):
+					end = hx.C("Some", "WBig")
+				case errors.Is(err, packet.ErrInvalidPomeloHeader):
+					end = hx.C("Some", hx.C("WBad", "EPktHeader"))
+				case errors.Is(err, packet.ErrWrongPomeloPacketType):
+					end = hx.C("Some", hx.C("WBad", "EPktType"))
+				case errors.Is(err, codec.ErrPacketSizeExcced):
+					end = hx.C("Some", hx.C("WBad", "EPktSize"))
+				case errors.As(err, &ne) && ne.Timeout():
+					end = hx.C("Some", hx.C("WBad", "EFuel")) // nothing arrived: not a behaviour of the model
+				default:
+					end = "None" // the peer's close frame / end of stream
+				}
+				return hx.C("RWs", ms, end)
 			}
 			ms = append(ms, hx.Norm(ints(b)))
 		}
@@ -586,6 +657,51 @@ func Run(cfg *hx.Config) error {
 			cl = append(cl, hx.Norm(ints(ch)))
 		}
 		emit(cfg, "framed", []hx.T{hx.C("OFramed", cl)}, tags)
+	}
+	// websocket framing: one packet per message; a message that is short, long, headerless or
+	// of a bad type ends the input
+	nws := 30
+	if cfg.Tier == "thorough" {
+		nws = 300
+	}
+	for i := 0; i < nws; i++ {
+		tags := map[string]bool{"ws-framed": true}
+		ml := []any{}
+		for n := r.Intn(5); n >= 0; n-- {
+			sz := r.Intn(12)
+			if r.Intn(8) == 0 {
+				sz = 60 + r.Intn(3000) // several continuation frames
+				tags["ws-fragmented"] = true
+			}
+			b, _ := codec.NewPomeloPacketEncoder().Encode(packet.Type(1+r.Intn(5)), randBytes(cfg, sz))
+			ml = append(ml, hx.Norm(ints(b)))
+		}
+		var bad []byte
+		switch i % 7 {
+		case 0:
+			tags["ws-short-body"] = true
+			b, _ := codec.NewPomeloPacketEncoder().Encode(packet.Data, randBytes(cfg, 2+r.Intn(6)))
+			bad = b[:4+r.Intn(len(b)-4)]
+		case 1:
+			tags["ws-long-body"] = true
+			b, _ := codec.NewPomeloPacketEncoder().Encode(packet.Data, randBytes(cfg, r.Intn(6)))
+			bad = append(b, randBytes(cfg, 1+r.Intn(4))...)
+		case 2:
+			tags["ws-no-header"] = true
+			bad = randBytes(cfg, r.Intn(4))
+		case 3:
+			tags["ws-bad-type"] = true
+			bad = []byte{byte(6 + r.Intn(200)), 0, 0, 1, 9}
+		case 4:
+			tags["ws-two-packets-in-one"] = true
+			b, _ := codec.NewPomeloPacketEncoder().Encode(packet.Data, randBytes(cfg, r.Intn(6)))
+			bad = append(append([]byte{}, b...), b...)
+		}
+		if bad != nil {
+			at := r.Intn(len(ml) + 1)
+			ml = append(ml[:at:at], append([]any{hx.Norm(ints(bad))}, ml[at:]...)...)
+		}
+		emit(cfg, "ws-framed", []hx.T{hx.C("OWsFramed", ml)}, tags)
 	}
 	for i := 0; i < cfg.N; i++ {
 		tags := map[string]bool{}
